@@ -105,22 +105,32 @@ def subOf (addr : Nat) (net : Net) (r : Ret) : NMove → List (Bytes × Bool)
   | .net _ (.send pid x v) => if addrOf net pid = some addr ∧ r = .send .ok then [(x, v)] else []
   | _ => []
 
+/-- the ghost world follows with the image of the move (or stays) -/
+def ghostStep (tl : Bool) (addr : Nat) (w : NW tl) (m : NMove) : Option (World (proto6 tl)) :=
+  match ghostMove tl addr w m with
+  | none => some w.g
+  | some gm => NetSim.step w.g gm
+
+/-- the datagram a move delivers to the endpoint -/
+def reqOf : NMove → Option (Nat × P6.Alt)
+  | .toNet i _ alt => some (i, alt)
+  | _ => none
+
+/-- did the move give `addr` a peer? -/
+def created {tl : Bool} (addr : Nat) (w : NW tl) (net1 : Net) : Bool :=
+  (slot w.net.peers addr).isNone && (slot net1.peers addr).isSome
+
 def nwStep {tl : Bool} (addr : Nat) (w : NW tl) (m : NMove) : Option (NW tl) :=
   match realStep tl addr w m with
   | none => none
   | some (net1, r, o) =>
-    let created := (slot w.net.peers addr).isNone && (slot net1.peers addr).isSome
-    if created && w.born then none
+    if created addr w net1 && w.born then none
     else
-      match (match ghostMove tl addr w m with
-             | none => some w.g
-             | some gm => NetSim.step w.g gm) with
+      match ghostStep tl addr w m with
       | none => none
       | some g1 =>
-        some { net := net1, g := g1, born := w.born || created
-               req := if created then (match m with
-                                       | .toNet i _ alt => some (i, alt)
-                                       | _ => none) else w.req
+        some { net := net1, g := g1, born := w.born || created addr w net1
+               req := if created addr w net1 then reqOf m else w.req
                netOut := w.netOut ++ (o.for addr).sent.map (·.2)
                netVital := w.netVital ++ vitalOfNet (o.for addr).events
                netSub := w.netSub ++ subOf addr w.net r m }
